@@ -312,7 +312,7 @@ def detect_policy():
     class Probe(S_MetaGrid):
         def get_affected_level_tiles(self, bbox, level):
             seen.append((level, tuple(bbox)))
-            return S_MetaGrid.get_affected_level_tiles(self, bbox, level)
+            raise _Runaway()        # the first query is all the probe needs
 
     class Pool(object):
         def process(self, tiles, progress):
@@ -322,13 +322,14 @@ def detect_policy():
     S.MetaGrid = Probe
     try:
         S.TileWalker(wd.task(), Pool(), handle_uncached=True).walk()
+    except _Runaway:
+        pass
     finally:
         S.MetaGrid = keep
     root = (90.0, 50.0, 410.0, 330.0)
-    first1 = [b for lv, b in seen if lv == 1][0]
+    # (the root query only: it does not depend on limit_sub_bbox or anything else of the walk)
     for policy in ('level', 'last'):
-        if seen[0] == (0, padded(root, query_pad(wd, 0, policy))) and \
-                first1 == padded((90.0, 320.0, 320.0, 330.0), query_pad(wd, 1, policy)):
+        if seen and seen[0] == (0, padded(root, query_pad(wd, 0, policy))):
             POLICY['value'] = policy
             return policy
     raise tlc.MachineryError('the walker queries the grid with an unknown bbox policy: %r' % (seen[:3],))
@@ -392,6 +393,9 @@ def build_world(wd, max_nodes=6000, plans=None):
     rk.freeze()
     rk.queries = queries
     rk.res = list(wd.grid.resolutions)
+    # no run of the modelled walk has more events than this (every node: enter, report, per subtile at most
+    # step_down, step_up, process, step_forward); three times that stops a walk that left the model
+    rk.bound = 3 * sum(2 + 4 * len(lst) for (n, lst) in aff.values()) + 100
     must, coarse, allowed = Oracle(wd).sets()
     w = {
         'name': wd.name,
@@ -429,6 +433,10 @@ class _FakeTime(object):
         pass
 
 
+class _Runaway(BaseException):
+    pass
+
+
 class Session(object):
     """One seeding task on the real code: seed() is called (again after every interruption) with
 
@@ -458,7 +466,9 @@ class Session(object):
         self.task = wd.task()
         self.progress = None
         self.runs = 0
+        self.run_events = 0
         self.anomalies = []
+        self.crash = None
 
     # -- observation ---------------------------------------------------------------------------
     def read_saved(self):
@@ -477,6 +487,9 @@ class Session(object):
     def emit(self, ev):
         ev.update(self.obs())
         self.events.append(ev)
+        self.run_events += 1
+        if self.run_events > self.rk.bound:
+            raise _Runaway()
         if self.after_event(ev):
             raise self.interrupt_exc()
 
@@ -543,6 +556,7 @@ class Session(object):
                            'level': level})
 
         self.runs += 1
+        self.run_events = 0
         self.handed = []
         self.progress = None
         self.clock = 0.0          # a new process: ProgressLog starts with _lastprogress = 0
@@ -558,6 +572,12 @@ class Session(object):
             result = 'done'
         except self.interrupt_exc:
             result = 'interrupted'
+        except _Runaway:
+            self.crash = 'Runaway: more than %d events in one run; the model needs less than a third of that' % self.rk.bound
+            result = 'crashed'
+        except Exception as ex:      # the real seeder raised: that is a finding, not a harness failure
+            self.crash = '%s: %s' % (type(ex).__name__, ex)
+            result = 'crashed'
         finally:
             S.MetaGrid, S.SeedProgress, S.TileWorkerPool, U.time = saved_names
         self.handed_runs.append(list(self.handed))
@@ -886,6 +906,8 @@ class Follower(object):
                     res = 'interrupted'
                 else:
                     res = sess.run_once()
+                if res == 'crashed':
+                    self._diverge('the seeder raised %s' % sess.crash)
                 if self.div is not None:
                     break
                 if res == 'interrupted':
@@ -954,7 +976,7 @@ class RandomDriver(object):
                     sess.handed_runs.append([])
                     sess.events.append(dict({'ev': 'interrupt'}, **sess.obs()))
                     continue
-                if sess.run_once() == 'done':
+                if sess.run_once() in ('done', 'crashed'):
                     return sess
             raise tlc.MachineryError('random driver: seeding does not finish')
         finally:
@@ -966,10 +988,11 @@ def _seed_interrupted():
     return SeedInterrupted
 
 
-def ideal_reach(wd):
-    """Meta tiles of the seeded levels reached by an idealised descent that keeps every overlap of positive
-    area (no per-level 1/10 pixel inset), computed with the oracle's geometry only.  Used to tell WHY a tile was
-    missed: a must-tile that this descent reaches but the code does not was lost to the inset of a coarser level."""
+def ideal_reach(wd, per_level_inset=False):
+    """Meta tiles of the seeded levels reached by a reference descent computed with the oracle's geometry only:
+    children of a node are the meta tiles that overlap its box (per_level_inset: its box shrunk by 1/10 pixel of the
+    child level, as the grid query does).  Used to tell WHY a tile was missed: a must-tile that the descent without
+    inset reaches and the descent with the per-level inset does not was lost to the inset of a coarser level."""
     orc = Oracle(wd)
     g = wd.grid
     last = wd.levels[-1]
@@ -985,9 +1008,10 @@ def ideal_reach(wd):
         if box[0] >= box[2] or box[1] >= box[3]:
             continue
         tested = len([l for l in wd.levels if l >= z]) >= wd.skip
+        qbox = _inset(box, g.resolutions[z] / 10.0) if per_level_inset else box
         for t in orc.window(z, box):
             rect = meta_rect(wd, t)
-            if not _overlap_open(rect, box):
+            if not _overlap_open(rect, qbox):
                 continue
             if tested and orc.away(rect):
                 continue
@@ -1003,10 +1027,13 @@ _REACH = {}
 
 def classify_miss(wd, t):
     """a must-tile that was not requested: lost to the 1/10 pixel inset of a coarser level, or something else"""
+    if POLICY['value'] != 'level':
+        return 'other'
     if wd.name not in _REACH:
         _REACH.clear()
-        _REACH[wd.name] = ideal_reach(wd)
-    return 'coarse-level-inset' if tuple(t) in _REACH[wd.name] and t[2] > 0 else 'other'
+        _REACH[wd.name] = (ideal_reach(wd), ideal_reach(wd, per_level_inset=True))
+    free, inset = _REACH[wd.name]
+    return 'coarse-level-inset' if tuple(t) in free and tuple(t) not in inset else 'other'
 
 
 def check_observed(ctx, wd, w, full, sess, what):
@@ -1015,6 +1042,10 @@ def check_observed(ctx, wd, w, full, sess, what):
     allowed = set(tuple(t) for t in w['allowed'])
     fullset = set(full)
     res = set()
+    if sess is not None and sess.crash:
+        ctx.violation({'clause': 'exception', 'type': sess.crash.split(':')[0]},
+                      '%s: seeding raised %s (%s)' % (wd.name, sess.crash, what), {'kind': 'miss', 'world': wd.desc})
+        return res
     for t in sorted(must - fullset):
         cause = classify_miss(wd, t)
         res.add(cause)
@@ -1204,6 +1235,7 @@ class Item(object):
         self.full = None        # hand-overs of the uninterrupted real run
         self.nev = 0            # its number of events
         self.excused = False    # a CompleteRunExact violation of this world has been reported
+        self.crashed = False    # the real seeder raised on it
 
 
 def observe_full(ctx, it, workdir, traces, meta):
@@ -1212,6 +1244,10 @@ def observe_full(ctx, it, workdir, traces, meta):
     s0 = drv.drive(it.wd, it.rk, workdir)
     it.full = list(s0.handed_runs[-1])
     it.nev = len(s0.events)
+    if s0.crash:
+        ctx.violation({'clause': 'exception', 'type': s0.crash.split(':')[0]},
+                      '%s: seeding raised %s' % (it.wd.name, s0.crash), {'kind': 'miss', 'world': it.wd.desc})
+        it.crashed = True
     if s0.anomalies:
         ctx.violation({'clause': 'hand-over-shape'}, '%s: %s' % (it.wd.name, s0.anomalies[0]), {'world': it.wd.desc})
     if check_observed(ctx, it.wd, it.w, it.full, None, ''):
